@@ -13,7 +13,7 @@
 From Coq Require Import ZArith List Bool Lia.
 From Hts Require Import Base.Prim Generated Model.Index Model.Tabix Model.Csi Model.IndexSpec Model.TabixSpec
   Model.IndexIO Proofs.Index Proofs.TabixIdx Proofs.CsiIdx Proofs.TabixLift Proofs.CsiLift
-  Proofs.IndexPremises Proofs.CsiPremise Proofs.IndexIOFull Proofs.IndexFinal.
+  Proofs.IndexPremises Proofs.CsiPremise Proofs.IndexIOFull Proofs.IndexFinal Proofs.TabixIO.
 Open Scope Z_scope.
 
 (** BAI: for every coordinate-sorted, in-range record list with a monotone
@@ -69,10 +69,8 @@ Print Assumptions bai_complete_after_write_read.
     the record list seen that way is well formed, adding every (name, record)
     pair succeeds, and in the built index and every state of its core
     reachable by sort / queries / covering MergeChunks, every query by name
-    covers each overlapping record.
-    PARTIAL only in that the state after WriteTo/ReadFrom is not proved for
-    tabix (header and name block; the shared core is [bai_complete_after_write_read]). *)
-Theorem tabix_complete_partial :
+    covers each overlapping record. *)
+Theorem tabix_complete :
   forall hdr nrs, ix_wf (tb_assign [] nrs) ->
   exists t, tb_fold_add (tb_new hdr) nrs = Ok t /\ reach (tb_assign [] nrs) (t_idx t) /\
     forall ix', reach (tb_assign [] nrs) ix' ->
@@ -81,7 +79,26 @@ Theorem tabix_complete_partial :
       ix_overlaps r' (q_rid r') beg end_ ->
       exists cs, fst (tb_chunks (tb_with t ix') nm beg end_) = Ok cs /\ ix_covers cs r'.
 Proof. exact (tabix_complete_reach_gen bai_bin_containment_holds). Qed.
-Print Assumptions tabix_complete_partial.
+Print Assumptions tabix_complete.
+
+(** tabix after WriteTo and ReadFrom (byte level; [tbx_fits]: header values,
+    names without NUL bytes and pairwise different, one name per reference,
+    numbers fit their fields): the bytes are read back as [tbx_reread t], which
+    writes to the same bytes, answers every query by name like [t], and covers
+    every overlapping record. *)
+Theorem tabix_complete_after_write_read :
+  forall hdr nrs, ix_wf (tb_assign [] nrs) ->
+  exists t, tb_fold_add (tb_new hdr) nrs = Ok t /\
+    (tbx_fits t ->
+     tbx_read (fst (tbx_write t)) = Ok (Some (tbx_reread t)) /\
+     fst (tbx_write (tbx_reread t)) = fst (tbx_write t) /\
+     (forall nm beg end_, fst (tb_chunks (tbx_reread t) nm beg end_) = fst (tb_chunks t nm beg end_)) /\
+     forall beg end_, 0 <= beg < end_ -> end_ <= 2 ^ 29 ->
+     forall nm r', In (nm, r') (combine (map fst nrs) (tb_assign [] nrs)) ->
+       ix_overlaps r' (q_rid r') beg end_ ->
+       exists cs, fst (tb_chunks (tbx_reread t) nm beg end_) = Ok cs /\ ix_covers cs r').
+Proof. exact tabix_complete_io_gen. Qed.
+Print Assumptions tabix_complete_after_write_read.
 
 (** CSI, for EVERY geometry whose bin numbers fit 32 bits (depth <= 10,
     minShift + 3*depth <= 62), any auxiliary data and version: adding a
